@@ -10,7 +10,7 @@
 From Coq Require Import List Bool ZArith NArith.
 Import ListNotations.
 From Verif Require Import Common.ListX Gen.Tables C14.Cache C14.Spec C14.Corr C14.Proofs C14.KwProofs
-  C14.NonVacuous.
+  C14.NonVacuous C14.Reload C14.ReloadProofs C14.ReloadEx.
 
 (** * Obligations on what is regenerated from importer.py on every check *)
 Theorem C14_table_magic : length importer_magic = 4%nat /\ forallb (fun b => N.ltb b 256) importer_magic = true.
@@ -151,6 +151,81 @@ Theorem C14_exec_error_retried_when_in_try : forall code dumps (loads : bytes ->
   executed code (r_trace (exec_module_gen code dumps loads src compile run true dwb f)) = [c; compile (f_src f)].
 Proof. exact Proofs.retried_when_in_try. Qed.
 
+(** * One process, several loads: import, edit, reload, damage, invalidate_caches *)
+(** Whatever the bytes of the cache file: the decoder returns code only when the file starts
+    with the magic number and two complete fields holding exactly the stats it was asked
+    about -- which exec_module takes from path_stats(filename) at every execution *)
+Theorem C14_decoder_accepts_only_matching_header : forall code (loads : bytes -> res code) m s d c,
+  get_basilisp_bytecode code loads m s d = Ok c -> header_matches importer_magic m s d.
+Proof. exact ReloadProofs.get_ok_header. Qed.
+
+(** For ALL histories of one process over one namespace file (Reload.v: first import =
+    find_spec, create_module, exec_module; reload = find_spec, exec_module with the spec the
+    importer cached at the first import; import of a loaded module = nothing;
+    invalidate_caches; edits of the source; changes of the cache file), started in a fresh
+    process, in which mtime and size identify the content ([honest_history]: some assignment
+    [reg] of code to 32-bit stats agrees with every source state, and every cache file put in
+    place is absent, shorter than a header, of another magic, a proper prefix of a written
+    file, or a complete file for registered content):
+    every import or reload that executes anything
+      - executes the code of the source as it is AT THAT MOMENT, exactly once, raises what it
+        raises, and that code is what the namespace's Vars are left defined by;
+      - takes it from the cache only if the cache file's header carries the magic number and
+        the CURRENT mtime and size of the source;
+      - does take it from the cache when the file is the one written for the current source;
+      - (bytecode writing on, no exception) leaves behind exactly the cache file of the
+        current source and stats; otherwise leaves the file system alone;
+      - never touches the source. *)
+Theorem C14_reload_sees_current_source : forall code dumps (loads : bytes -> res code),
+  (forall c, loads (dumps c) = Ok c) ->
+  (forall c n, (n < length (dumps c))%nat -> loads (firstn n (dumps c)) = Raise EOFError) ->
+  forall src compile run dwb (reg : Z -> Z -> code) (f0 : fs src) (steps : list (step src)),
+  honest_history code dumps src compile reg f0 steps ->
+  forall f r f' p',
+  In (f, OLoad r, (f', p'))
+     (run_hist code dumps loads src compile run false dwb (f0, fresh) steps) ->
+  let c := compile (f_src f) in
+  executed code (r_trace r) = [c] /\ r_raised r = run c /\ p_vars p' = Some c
+  /\ (forall c', In (EvRunCached c') (r_trace r) ->
+        exists d, f_cache f = Some d /\ header_matches importer_magic (f_mtime f) (f_size f) d)
+  /\ (f_cache f = Some (written code dumps src compile f) ->
+      in_range (f_mtime f) = true -> in_range (f_size f) = true -> r_trace r = [EvRunCached c])
+  /\ (r_raised r = None -> dwb = false -> f_cache f' = Some (written code dumps src compile f))
+  /\ (r_raised r <> None \/ dwb = true -> f' = f)
+  /\ f_src f' = f_src f /\ f_mtime f' = f_mtime f /\ f_size f' = f_size f.
+Proof. exact ReloadProofs.reload_sees_current_source. Qed.
+
+(** the kinds of damage the histories of the correspondence apply keep a cache file within
+    the premise: cutting a benign file at any length, any other four bytes in front of
+    anything, a crash at any byte of a write *)
+Theorem C14_damage_stays_benign : forall code dumps (reg : Z -> Z -> code),
+  (forall d n, benign code dumps reg (Some d) -> benign code dumps reg (Some (firstn n d)))
+  /\ (forall b rest, length b = 4%nat -> b <> importer_magic -> benign code dumps reg (Some (b ++ rest)))
+  /\ (forall src (f : fs src) m s c k, (k < length (basilisp_bytecode code dumps m s c))%nat ->
+       benign code dumps reg (f_cache (crashed_write f (basilisp_bytecode code dumps m s c) k))).
+Proof.
+  exact (fun code dumps reg =>
+    conj (ReloadProofs.benign_truncate code dumps reg)
+      (conj (ReloadProofs.benign_other_magic code dumps reg)
+            (fun src => ReloadProofs.benign_crashed_write code dumps src reg))).
+Qed.
+
+(** The other shape of the loader -- find_spec stats the source once and keeps the result in
+    the spec's loader_state, exec_module reads it from there -- fails the property: in an
+    honest history (import; edit with a later mtime; reload) the reload finds version 2 of
+    the source, validates the cache against the stats of the first import, executes the code
+    of version 1, leaves version 1's Vars and version 1's cache file in place *)
+Theorem C14_reload_stale_when_stats_in_spec :
+  honest_history tcode (t_dumps TL) N i_compile ex_reg ex_f0 ex_steps
+  /\ exists f r f' p',
+       In (f, OLoad r, (f', p'))
+          (run_hist tcode (t_dumps TL) (t_loads TL) N i_compile (fun _ => None) true false (ex_f0, fresh) ex_steps)
+       /\ f_src f = 2%N
+       /\ executed tcode (r_trace r) = [i_compile 1%N]
+       /\ p_vars p' = Some (i_compile 1%N)
+       /\ f_cache f' = Some (golden 1700000000 100).
+Proof. exact ReloadEx.reload_stale_when_stats_in_spec. Qed.
+
 (** * Keywords of cached code in a process with other string hashes *)
 (** Whatever hashes the literals of a history carry: every request yields an object with
     the requested name and the running process's hash of it -- so [=], [hash], map and set
@@ -203,6 +278,16 @@ Example C14_kw_guard_nonvacuous :
      KLit (toy_hash 0 (kwn 8)) (kwn 8); KNew (kwn 8)] = true.
 Proof. exact NonVacuous.ex_keys_consistent. Qed.
 
+(** a history with an edit, a damaged cache and invalidate_caches meets the premise of
+    [C14_reload_sees_current_source]; per load: current version, code executed, from the
+    cache?, version the Vars show *)
+Example C14_reload_nonvacuous :
+  honest_history tcode (t_dumps TL) N i_compile ex_reg ex_f0 ex_steps
+  /\ summary (ex_run false)
+     = [(1, [1], false, Some 1); (2, [2], false, Some 2); (2, [2], false, Some 2); (2, [2], true, Some 2)]%N
+  /\ f_cache (fst (snd (last (ex_run false) (ex_f0, ONothing, (ex_f0, fresh))))) = Some ex_file2.
+Proof. exact ReloadEx.ex_reload. Qed.
+
 Print Assumptions C14_table_magic.
 Print Assumptions C14_table_header_checks.
 Print Assumptions C14_get_follows_table.
@@ -223,6 +308,10 @@ Print Assumptions C14_crashed_write_is_unusable.
 Print Assumptions C14_transparent.
 Print Assumptions C14_exec_error_not_retried.
 Print Assumptions C14_exec_error_retried_when_in_try.
+Print Assumptions C14_decoder_accepts_only_matching_header.
+Print Assumptions C14_reload_sees_current_source.
+Print Assumptions C14_damage_stays_benign.
+Print Assumptions C14_reload_stale_when_stats_in_spec.
 Print Assumptions C14_kw_semantics_seed_independent.
 Print Assumptions C14_kw_identity_iff_same_key.
 Print Assumptions C14_kw_literal_vs_constructed.
@@ -231,3 +320,4 @@ Print Assumptions C14_hypotheses_satisfiable.
 Print Assumptions C14_unusable_nonvacuous.
 Print Assumptions C14_fallback_nonvacuous.
 Print Assumptions C14_kw_guard_nonvacuous.
+Print Assumptions C14_reload_nonvacuous.
